@@ -326,3 +326,10 @@ func seqStarEndArgs(s *slip.Scope, args slip.List, depth int) (start, end int) {
 	}
 	return
 }
+
+// octetsArg coerces an argument to octets. A nil argument, which
+// CoerceToOctets leaves as nil, is the empty sequence of octets.
+func octetsArg(arg slip.Object) []byte {
+	octs, _ := slip.CoerceToOctets(arg).(slip.Octets)
+	return []byte(octs)
+}
